@@ -106,6 +106,15 @@ MergeImpl(S, h, v) ==
       Dense(g)  == Cardinality(Units(g)) = Pow2(2 * (mh - h)) * Pow2(mv - v)
   IN  N \cup {g \in Groups : Dense(g)} \cup {s \in E : ~Dense(Anc(s))}
 
+\* the exported building blocks of the merge, one step each (mirrors
+\* NewUnitDividedSpatialID, NewHighSpatialID, HighSpatialID.Merge, IsDense):
+\* every eligible input is cut into unit voxels at (mh, mv), filed under its
+\* ancestor at (h, v), groups with the same ancestor pool their unit voxels,
+\* and a group is dense when the pool has as many voxels as the ancestor holds.
+MergeSteps(E, h, v, mh, mv) ==
+  LET Units(g) == UNION {ChangeZoomOne(s, mh, mv) : s \in {t \in E : Ancestor(t, h, v) = g}}
+  IN  {<<g, Cardinality(Units(g)) = Pow2(2 * (mh - h)) * Pow2(mv - v)>> : g \in {Ancestor(s, h, v) : s \in E}}
+
 \* ---- overlap (C05) -- mirrors detector.CheckExtendedSpatialIdsOverlap ---
 OverlapImpl(a, b) ==
   LET th == MinOf(a[1], b[1])
